@@ -119,6 +119,17 @@ class Ctx:
     self.only_case = spec.get('only_case')
     self.case_id = None
     self.records = []
+    self.t_start = time.time()
+
+  def spent(self, frac=0.7):
+    """True once the shard used `frac` of its wall-clock allowance.  Only
+    ever used to *cut a workload short* on a loaded machine (the counters say
+    how far it got); never a verdict."""
+    if time.time() - self.t_start > frac * self.spec.get('timeout', 1500):
+      if not self.counters.get('workload_cut_by_time_budget'):
+        self.count('workload_cut_by_time_budget')
+      return True
+    return False
 
   def rng(self, *label):
     return Rng('%s/%d/%s/%s' % (self.prop, self.seed, self.shard,
